@@ -269,3 +269,47 @@ def volume_insert_remove(ctx, deg, m, d, r, t):
         ctx.check_eq_grid('ctrlpts.restored', vol.ctrlpts, P)
     want = spec.volume_point(deg[0], deg[1], deg[2], kvs[0], kvs[1], kvs[2], P, su, sv, sw, prm[0], prm[1], prm[2])
     ctx.check_eq_vec('shape.unchanged', vol.evaluate_single(prm), want)
+
+
+# ------------------------------------------------------------------------------------------------
+# control nets through the origin: the removability test (Eq 5.30) compares a distance with a tolerance; a tolerance taken
+# relative to the size of the reconstructed point vanishes at the origin, where only rounding errors remain.  In exact
+# arithmetic the distance is exactly 0, so the same contract also runs at run time on native floats.
+# ------------------------------------------------------------------------------------------------
+_ORIGIN_SHAPES = {
+    'quartic': dict(p=4, P=[['-31/10', '13/10'], ['-11/5', '-7/10'], ['-13/10', '9/10'], ['0', '0'], ['11/10', '-13/10'],
+                            ['23/10', '7/10'], ['16/5', '-2/5']], U=['0'] * 5 + ['1/3', '2/3'] + ['1'] * 5, us=['37/100', '9/20', '11/20']),
+    'symmetric_bezier': dict(p=5, P=[['-31/10', '13/10'], ['-2187/1000', '71/100'], ['-156/125', '-32/25'], ['156/125', '32/25'],
+                                     ['2187/1000', '-71/100'], ['31/10', '-13/10']], U=['0'] * 6 + ['1'] * 6, us=['1/2']),
+    'quadratic': dict(p=2, P=[['1', '2'], ['0', '0'], ['3', '-1'], ['4', '2']], U=['0'] * 3 + ['1/2'] + ['1'] * 3, us=['1/4', '3/4']),
+}
+
+
+@scenario('C06', fns=['helpers.knot_removal', 'helpers.knot_insertion', 'operations.insert_knot', 'operations.remove_knot'],
+          quick=[dict(shape=s) for s in sorted(_ORIGIN_SHAPES)],
+          native=lambda tier: [dict(shape=s) for s in sorted(_ORIGIN_SHAPES)])
+def insert_remove_through_origin(ctx, shape):
+    """requires: a concrete B-spline curve with a control point at the origin (or point-symmetric about it); a parameter u
+                 inside a span; r = 1..degree insertions of u followed by r removals
+       ensures : knot vector, number of control points, control points and evaluated points are those of the original"""
+    import copy
+    d = _ORIGIN_SHAPES[shape]
+    L = ctx.lit
+    P = [[L(Fraction(c)) for c in pt] for pt in d['P']]
+    U = [L(Fraction(k)) for k in d['U']]
+    crv = shapes.build_curve(ctx, d['p'], U, P)
+    ops = ctx.geomdl('operations')
+    params = [L(Fraction(i, 20)) for i in range(21)]
+    before = [crv.evaluate_single(t) for t in params]
+    for us in d['us']:
+        u = L(Fraction(us))
+        for r in range(1, d['p'] + 1):
+            c = copy.deepcopy(crv)
+            ops.insert_knot(c, [u], [r])
+            ops.remove_knot(c, [u], [r])
+            tag = 'u=%s.r=%d' % (us, r)
+            ctx.check_true(tag + '.size_restored', c.ctrlpts_size == len(P), '%d control points, originally %d' % (c.ctrlpts_size, len(P)))
+            ctx.check_eq_vec(tag + '.knotvector_restored', c.knotvector, U)
+            if c.ctrlpts_size == len(P):
+                ctx.check_eq_grid(tag + '.ctrlpts_restored', c.ctrlpts, P)
+                ctx.check_eq_grid(tag + '.points_restored', [c.evaluate_single(t) for t in params], before)
